@@ -76,7 +76,7 @@ def index_sources(x, e):
     None if there is no offset"""
     g = x.g
     found = None
-    for c in g.call_nodes_in(e, deep=True):
+    for c in x.calls_in(e, deep=True):
         nm = g.call_name(c) or ''
         if re.search(r'<impl \*(mut|const) T>::(offset|add|wrapping_add|wrapping_offset)$', nm):
             args = g.call_args(c)
@@ -173,7 +173,7 @@ def _p1(ctx, g, x, root, fl):
         for h in sorted(H):
             if C in x.reach_from(h, blocked=blocked):
                 bad.append(x.describe(h))
-        if C in g.reachable(None, blocked=blocked):
+        if C in x.reachable_entry(blocked=blocked):
             bad.append('entry')
         ctx.add('P1a', 'T-MUST', fn, not bad,
                 'claim %s is %s preceded by a fullness test of the transaction being claimed on every path from a head observation'
@@ -283,7 +283,7 @@ def _p1(ctx, g, x, root, fl):
                 c2 = all(not x.reaches(e_, w, blocked=set(reads)) for e_ in untagged for w in myW)
                 # the value read is dropped (by scope end) on every path, after the write
                 drops = [n.id for n in g.nodes if n.id in g.live() and n.kind == 'block' and n.term['k'] == 'drop'
-                         and any(r in g.call_nodes_in(g.ev_place(n.inst, n.term['pl'])) for r in reads)]
+                         and any(r in x.calls_in(g.ev_place(n.inst, n.term['pl'])) for r in reads)]
                 c3 = bool(drops) and all(x.must(r, set(drops)) for r in reads)
                 c4 = all(not x.reaches(s, d, blocked=set(myW)) for s in starts for d in drops)
                 ok = c1 and c2 and c3 and c4
@@ -333,7 +333,7 @@ def _p1(ctx, g, x, root, fl):
         for h in sorted(H):
             if nid in x.reach_from(h, blocked=readers_loads | (H - {h})):
                 bad.append(x.describe(h))
-        if nid in g.reachable(None, blocked=readers_loads | H):
+        if nid in x.reachable_entry(blocked=readers_loads | H):
             bad.append('entry')
         ok = not bad and x.dom(full_edges, nid)
         ctx.add('P1b', 'T-DOM', fn, ok,
@@ -355,7 +355,7 @@ def _p1(ctx, g, x, root, fl):
             'payload dropped/consumed at %s' % ([x.describe(d) for d in drops] + consumers), flavour=fl, sub='once')
     carriers = {nid for (nid, si, rv) in x.aggs(r'TrySendError::(Full|Disconnected)$')
                 if any(g.strip(o) == payload for o in x.agg_expr(nid, si)[4])}
-    ok = not (g.reachable(None, blocked=set(W) | carriers) & set(g.exits))
+    ok = not (x.reachable_entry(blocked=set(W) | carriers) & set(g.exits))
     ctx.add('P1f', 'T-MUST', root, ok, 'every return either stored the payload in a slot or hands it back' if ok else
             'a return path neither stores nor hands back the payload', flavour=fl, sub='all-exits')
     # O2: acquire before the claim
@@ -550,7 +550,7 @@ def _clone_send(ctx):
     x = g.x
     sets = [n for n in x.ext_calls(r'Cell(::<.*>)?::set$') if any('InnerSend.state' in p for p in g.locpaths(g.call_args(n)[0]))]
     multi_sets = {n for n in sets if g.strip(g.call_args(n)[1])[0] == 'agg' and g.strip(g.call_args(n)[1])[2].endswith('QueueState::Multi')}
-    ok = bool(multi_sets) and not (g.reachable(None, blocked=multi_sets) & set(g.exits)) and len(multi_sets) == len(sets)
+    ok = bool(multi_sets) and not (x.reachable_entry(blocked=multi_sets) & set(g.exits)) and len(multi_sets) == len(sets)
     ctx.add('P2e', 'T-MUST', fn, ok, 'Clone marks the source handle Multi on every path' if ok else 'Clone for InnerSend does not set self.state = Multi on every path', sub='self')
     aggs = x.aggs(r'multiqueue::InnerSend::InnerSend$')
     ctx.floor('P2e', len(aggs), 1, 'InnerSend{..} construction in Clone')
@@ -563,7 +563,7 @@ def _clone_send(ctx):
             okv = a[0] == 'agg' and a[2].endswith('QueueState::Multi')
         ctx.add('P2e', 'T-FLOW', fn, okv, 'the new handle starts in Multi mode' if okv else 'cloned InnerSend does not start in QueueState::Multi', where=g.where(nid), sub='new')
     incs = {a.nid for a in x.atoms_on('MultiQueue.writers', ops={'fetch_add'})}
-    ok = bool(incs) and not (g.reachable(None, blocked=incs) & set(g.exits))
+    ok = bool(incs) and not (x.reachable_entry(blocked=incs) & set(g.exits))
     ctx.add('P2e', 'T-MUST', fn, ok, 'writers count incremented before the clone is returned' if ok else 'Clone for InnerSend does not increment writers on every path', sub='count')
     for n in incs:
         v = g.strip(g.call_args(n)[1])
